@@ -583,7 +583,7 @@ def classify_layout_difference(case, ra, rb):
     if name == 'assign_iloc_array' and args[2] in ('row2d', 'short'):
         return 'F73'  # an ill-shaped array value is refused, broadcast or mis-indexed depending on how the addressed columns are blocked
     overflow_one_side = sorted([ra[0], rb[0]]) == ['err', 'ok'] and 'OverflowError' in (ra[1] if ra[0] == 'err' else rb[1])
-    if name == 'reduce' and args[0] in ('sum', 'prod', 'cumsum', 'cumprod') and (ra[0] == rb[0] == 'ok' or overflow_one_side) \
+    if name == 'reduce' and args[1] == 0 and args[0] in ('sum', 'prod', 'cumsum', 'cumprod') and (ra[0] == rb[0] == 'ok' or overflow_one_side) \
             and any(c['dt'] in ('int8', 'uint8', 'float32') for c in case['spec']['cols']):
         return 'F72'  # narrow numeric columns: the per-block output keeps the narrow dtype and wraps / rounds
     if name == 'reduce' and rows == 0 and args[0] in ('all', 'any'):
